@@ -36,6 +36,7 @@ import (
 	cloudutils "tunnox-core/internal/cloud/utils"
 	"tunnox-core/internal/constants"
 	"tunnox-core/internal/core/idgen"
+	"tunnox-core/internal/core/storage"
 	"tunnox-core/internal/core/storage/memory"
 	vk "tunnox-core/internal/verifkit"
 )
@@ -51,8 +52,10 @@ type c06Node struct {
 
 type c06World struct {
 	cancel       context.CancelFunc
-	mem          *memory.Storage
-	g            *vk.Gated
+	backend      string            // "memory": one store shared by all nodes; "hybrid": one hybrid.Storage per node (own local cache, one shared cache)
+	mem          *memory.Storage   // the store holding shared data (memory backend: the only store; hybrid: the shared cache tier)
+	locals       []*memory.Storage // hybrid: node-local cache tiers
+	gates        []*vk.Gated       // every gated tier double
 	nodes        []*c06Node
 	code         *models.TunnelConnectionCode
 	createCall   time.Time // instants around CreateConnectionCode (interval oracle)
@@ -68,21 +71,48 @@ var c06WorldSeq atomic.Int64
 
 const c06TargetClient = int64(20000001)
 
+func (w *c06World) setHook(h vk.Hook) {
+	for _, g := range w.gates {
+		g.SetHook(h)
+	}
+}
+
 func c06NewWorld(t testing.TB, nNodes int, activationTTL time.Duration) *c06World {
+	return c06NewWorldB(t, "memory", nNodes, activationTTL)
+}
+
+func c06NewWorldB(t testing.TB, backend string, nNodes int, activationTTL time.Duration) *c06World {
 	ctx, cancel := context.WithCancel(context.Background())
-	w := &c06World{cancel: cancel, targetClient: c06TargetClient}
+	if backend == "" {
+		backend = "memory"
+	}
+	w := &c06World{cancel: cancel, targetClient: c06TargetClient, backend: backend}
 	w.mem = memory.New(ctx)
-	w.g = vk.NewGated("mem", w.mem)
-	w.g.SetHook(nil)
+	tier := "mem"
+	if backend == "hybrid" {
+		tier = "shared"
+	}
+	gShared := vk.NewGated(tier, w.mem)
+	w.gates = append(w.gates, gShared)
 	for i := 0; i < nNodes; i++ {
-		repo := repos.NewRepository(w.g)
+		var st storage.Storage = gShared
+		if backend == "hybrid" {
+			// a node of a clustered deployment: own local cache, the cluster's shared cache, no database
+			local := memory.New(ctx)
+			gLocal := vk.NewGated(fmt.Sprintf("local%d", i), local)
+			w.locals = append(w.locals, local)
+			w.gates = append(w.gates, gLocal)
+			st = storage.NewHybridStorageWithSharedCache(ctx, gLocal, gShared, nil, nil)
+		}
+		repo := repos.NewRepository(st)
 		ccRepo := repos.NewConnectionCodeRepository(repo)
 		pmRepo := repos.NewPortMappingRepo(repo)
-		idm := idgen.NewIDManager(w.g, ctx)
+		idm := idgen.NewIDManager(st, ctx)
 		pmSvc := NewPortMappingService(pmRepo, idm, nil, ctx)
 		svc := NewConnectionCodeService(ccRepo, pmSvc, pmRepo, nil, ctx)
 		w.nodes = append(w.nodes, &c06Node{svc: svc, ccRepo: ccRepo})
 	}
+	w.setHook(nil)
 	n := c06WorldSeq.Add(1)
 	// unique target address per code: attribution of mappings to the code is exact
 	w.target = fmt.Sprintf("tcp://10.66.%d.%d:%d", (n>>8)&0xff, n&0xff, 20000+int(n%40000))
@@ -192,6 +222,17 @@ type c06Scan struct {
 func (w *c06World) scan() *c06Scan {
 	sc := &c06Scan{Mains: map[string]*models.PortMapping{}, IdxRefs: map[string][]string{}, CodeBy: map[string]*models.TunnelConnectionCode{}}
 	all, _ := w.mem.QueryByPrefix("tunnox:", 0)
+	for i, l := range w.locals {
+		// anything a node keeps only in its local tier is still part of the observable state
+		part, _ := l.QueryByPrefix("tunnox:", 0)
+		for k, v := range part {
+			if _, dup := all[k]; !dup {
+				all[k] = v
+			} else {
+				all[fmt.Sprintf("%s#local%d", k, i)] = v
+			}
+		}
+	}
 	for k, v := range all {
 		sc.RawKeys = append(sc.RawKeys, k)
 		switch {
@@ -412,16 +453,27 @@ type c06Scenario struct {
 	Kind    string      `json:"kind"`
 	Nodes   int         `json:"nodes"`
 	Threads []c06Thread `json:"threads"`
+	Backend string      `json:"backend,omitempty"`
+}
+
+// the cross-node scenarios again with one hybrid.Storage per node ("hy-" prefix)
+func init() {
+	for _, k := range []string{"2act-cross-node", "2act-same-client", "1act+revoke", "2act+revoke", "3act"} {
+		sc := c06Scenarios[k]
+		sc.Kind = "hy-" + k
+		sc.Backend = "hybrid"
+		c06Scenarios[sc.Kind] = sc
+	}
 }
 
 var c06Scenarios = map[string]c06Scenario{
-	"2act-same-node":   {"2act-same-node", 1, []c06Thread{{"A", "activate", 0, 30000001}, {"B", "activate", 0, 30000002}}},
-	"2act-cross-node":  {"2act-cross-node", 2, []c06Thread{{"A", "activate", 0, 30000001}, {"B", "activate", 1, 30000002}}},
-	"2act-same-client": {"2act-same-client", 2, []c06Thread{{"A", "activate", 0, 30000001}, {"B", "activate", 1, 30000001}}},
-	"1act+revoke":      {"1act+revoke", 2, []c06Thread{{"A", "activate", 0, 30000001}, {"R", "revoke", 1, 0}}},
-	"2act+revoke":      {"2act+revoke", 2, []c06Thread{{"A", "activate", 0, 30000001}, {"B", "activate", 1, 30000002}, {"R", "revoke", 0, 0}}},
-	"1act":             {"1act", 1, []c06Thread{{"A", "activate", 0, 30000001}}},
-	"3act":             {"3act", 2, []c06Thread{{"A", "activate", 0, 30000001}, {"B", "activate", 1, 30000002}, {"C", "activate", 0, 30000003}}},
+	"2act-same-node":   {"2act-same-node", 1, []c06Thread{{"A", "activate", 0, 30000001}, {"B", "activate", 0, 30000002}}, ""},
+	"2act-cross-node":  {"2act-cross-node", 2, []c06Thread{{"A", "activate", 0, 30000001}, {"B", "activate", 1, 30000002}}, ""},
+	"2act-same-client": {"2act-same-client", 2, []c06Thread{{"A", "activate", 0, 30000001}, {"B", "activate", 1, 30000001}}, ""},
+	"1act+revoke":      {"1act+revoke", 2, []c06Thread{{"A", "activate", 0, 30000001}, {"R", "revoke", 1, 0}}, ""},
+	"2act+revoke":      {"2act+revoke", 2, []c06Thread{{"A", "activate", 0, 30000001}, {"B", "activate", 1, 30000002}, {"R", "revoke", 0, 0}}, ""},
+	"1act":             {"1act", 1, []c06Thread{{"A", "activate", 0, 30000001}}, ""},
+	"3act":             {"3act", 2, []c06Thread{{"A", "activate", 0, 30000001}, {"B", "activate", 1, 30000002}, {"C", "activate", 0, 30000003}}, ""},
 }
 
 func newC06Rand(seed int64) *rand.Rand { return rand.New(rand.NewSource(seed)) }
@@ -509,10 +561,10 @@ type c06SchedResult struct {
 // the function to call after the schedule ended. failAt > 0: the failAt-th storage
 // write (in schedule order, counted from the moment the threads start) fails.
 func c06RunScheduled(t testing.TB, run *vk.Run, sc c06Scenario, s *vk.Sched, failAt int, mode string) func(ok bool) {
-	w := c06NewWorld(t, sc.Nodes, 10*time.Minute)
+	w := c06NewWorldB(t, sc.Backend, sc.Nodes, 10*time.Minute)
 	var writes atomic.Int64
 	var failedOp atomic.Value
-	w.g.SetHook(func(tier, op, key string) error {
+	w.setHook(func(tier, op, key string) error {
 		s.Yield(tier + "." + op + ":" + key)
 		if failAt > 0 && c06IsWrite(op) {
 			if int(writes.Add(1)) == failAt {
@@ -547,7 +599,7 @@ func c06RunScheduled(t testing.TB, run *vk.Run, sc c06Scenario, s *vk.Sched, fai
 			run.Count("watchdog", 1)
 			return
 		}
-		w.g.SetHook(nil)
+		w.setHook(nil)
 		run.Eval(1)
 		if !ok {
 			// step bound / unresolved stall: the interleaving was not the controlled one
@@ -798,13 +850,24 @@ func TestVerifC06Orders(t *testing.T) {
 }
 
 func c06RunOrder(t testing.TB, run *vk.Run, ord []string, cross bool, expiry string, ttl time.Duration) {
+	c06RunOrderB(t, run, "memory", ord, cross, expiry, ttl)
+}
+
+// c06RunOrderB executes one sequential order. Events: actA (node 0), actB (node 1 if
+// cross), revoke (node 1 if cross), revoke0/revoke1 (explicit node), expire,
+// probe0/probe1 (an activation attempt through that node that is rejected because its
+// listen address is malformed - it reads the code but must not change anything).
+func c06RunOrderB(t testing.TB, run *vk.Run, backend string, ord []string, cross bool, expiry string, ttl time.Duration) {
 	sig := strings.Join(ord, ">") + fmt.Sprintf("|cross=%v|expiry=%s", cross, expiry)
+	if backend != "memory" {
+		sig = backend + "|" + sig
+	}
 	run.Case("order|"+sig, nil)
 	actTTL := 10 * time.Minute
 	if expiry == "ttl" {
 		actTTL = ttl
 	}
-	w := c06NewWorld(t, 2, actTTL)
+	w := c06NewWorldB(t, backend, 2, actTTL)
 	defer w.close()
 	var calls []*c06Call
 	revoked, used := false, false
@@ -851,9 +914,19 @@ func c06RunOrder(t testing.TB, run *vk.Run, ord []string, cross bool, expiry str
 			if c.OK {
 				used = true
 			}
-		case "revoke":
+		case "probe0", "probe1":
+			c := &c06Call{Thread: ev, Kind: "activate", Node: int(ev[5] - '0'), Client: 30000004, Listen: "no-port-here"}
+			w.do(c)
+			calls = append(calls, c)
+			if !c.OK {
+				run.Count("orders_rejected_probe_attempts", 1)
+			}
+			if c.OK {
+				used = true
+			}
+		case "revoke", "revoke0", "revoke1":
 			c := &c06Call{Thread: "R", Kind: "revoke", Node: 0}
-			if cross {
+			if (ev == "revoke" && cross) || ev == "revoke1" {
 				c.Node = 1
 			}
 			w.do(c)
@@ -908,7 +981,7 @@ func c06RunOrder(t testing.TB, run *vk.Run, ord []string, cross bool, expiry str
 	}
 	sort.Strings(maps)
 	for _, f := range fs {
-		run.Violation(f.Sig+"|sequential", map[string]any{"order": ord, "cross_node": cross, "expiry": expiry, "calls": calls, "mapping_records": maps, "index_copies": scan.IdxRefs, "code_record": scan.CodeBy, "reason": f.Reason})
+		run.Violation(f.Sig+"|sequential", map[string]any{"backend": backend, "order": ord, "cross_node": cross, "expiry": expiry, "calls": calls, "mapping_records": maps, "index_copies": scan.IdxRefs, "code_record": scan.CodeBy, "reason": f.Reason})
 	}
 }
 
@@ -929,7 +1002,7 @@ func TestVerifC06Faults(t *testing.T) {
 		defer w.close()
 		var ops []string
 		var mu sync.Mutex
-		w.g.SetHook(func(tier, op, key string) error {
+		w.setHook(func(tier, op, key string) error {
 			if c06IsWrite(op) {
 				mu.Lock()
 				ops = append(ops, op+":"+c06IDRe.ReplaceAllString(strings.ReplaceAll(key, w.code.Code, "CODE"), "$1*"))
@@ -1066,7 +1139,7 @@ func TestVerifC06ExpiresDuring(t *testing.T) {
 	{
 		w := c06NewWorld(t, 1, 10*time.Minute)
 		var n atomic.Int64
-		w.g.SetHook(func(string, string, string) error { n.Add(1); return nil })
+		w.setHook(func(string, string, string) error { n.Add(1); return nil })
 		c := &c06Call{Thread: "A", Kind: "activate", Node: 0, Client: 30000001, Listen: "0.0.0.0:7001"}
 		w.do(c)
 		w.close()
@@ -1109,7 +1182,7 @@ func TestVerifC06ExpiresDuring(t *testing.T) {
 				var ops []c06TimedOp
 				var holdStart time.Time
 				held, timedOut := false, false
-				w.g.SetHook(func(tier, op, key string) error {
+				w.setHook(func(tier, op, key string) error {
 					mu.Lock()
 					idx := len(ops) + 1
 					mu.Unlock()
@@ -1127,7 +1200,7 @@ func TestVerifC06ExpiresDuring(t *testing.T) {
 				})
 				c := &c06Call{Thread: "A", Kind: "activate", Node: node, Client: 30000001, Listen: "0.0.0.0:7001"}
 				w.do(c)
-				w.g.SetHook(nil)
+				w.setHook(nil)
 				if timedOut {
 					run.Count("watchdog", 1)
 					w.close()
@@ -1184,7 +1257,7 @@ func TestVerifC06ExpiresDuring(t *testing.T) {
 		var yGid atomic.Int64
 		timedOut := atomic.Bool{}
 		claimKeyX := other.ID
-		w.g.SetHook(func(tier, op, key string) error {
+		w.setHook(func(tier, op, key string) error {
 			g := c06Gid()
 			if op == "SetNX" && strings.Contains(key, claimKeyX) {
 				// X is inside the client's quota critical section: hold it there
@@ -1229,7 +1302,7 @@ func TestVerifC06ExpiresDuring(t *testing.T) {
 		case <-time.After(20 * time.Second):
 			okSetup = false
 		}
-		w.g.SetHook(nil)
+		w.setHook(nil)
 		if !okSetup || timedOut.Load() {
 			run.Count("watchdog", 1)
 			w.close()
@@ -1269,6 +1342,83 @@ func TestVerifC06ExpiresDuring(t *testing.T) {
 	run.Floor("judged_and_validated_certainly_before_expiry", 8)
 	run.Floor("rejected_after_expiry_during_activation", 8)
 	run.Floor("judged_queued_on_quota_lock", 2)
+	if run.Counter("watchdog") > 0 {
+		run.Floor("watchdog_free", 1)
+	}
+}
+
+// ---------------------------------------------------------------------------
+// monitor 5: the same oracles on the tiered store, one hybrid.Storage per node
+// ---------------------------------------------------------------------------
+
+func TestVerifC06Hybrid(t *testing.T) {
+	vk.Quiet()
+	run := vk.Start(t, "C06", "hybrid")
+	defer run.Finish()
+	run.Rule("each node = its own conncode.Service over its own hybrid.Storage (own local memory cache, one shared memory cache for all nodes, no database), every tier call is a gate; (a) cross-node scenarios (2-3 activators on different nodes, with/without revoker) under all schedules with <=2 preemptions (capped at quick tier) and seeded random schedules; (b) sequential orders with operations alternating between nodes: the base orders of the 'orders' monitor (B and the revoker on node 1, real-TTL expiry) and every permutation of {rejected attempt via node 0, rejected attempt via node 1, revoke via node r, activateA via node 0, activateB via node 1}; distinct = overlapping schedule fingerprints + (order, variant)")
+	c06Replay(t, run, "hybrid")
+
+	type plan struct {
+		kind    string
+		preempt int
+		cap     int
+	}
+	plans := []plan{
+		{"hy-2act-cross-node", 2, run.Pick(600, 100000)},
+		{"hy-1act+revoke", 2, run.Pick(300, 100000)},
+		{"hy-2act-same-client", 1, run.Pick(60, 100000)},
+		{"hy-2act+revoke", 2, run.Pick(400, 8000)},
+		{"hy-3act", 2, run.Pick(200, 8000)},
+	}
+	for _, p := range plans {
+		sc := c06Scenarios[p.kind]
+		run.Case("dfs|"+p.kind, p)
+		st := vk.Explore(p.preempt, p.cap, 600, func(s *vk.Sched) func(bool) {
+			return c06RunScheduled(t, run, sc, s, 0, "dfs")
+		})
+		run.Count("dfs_runs", int64(st.Runs))
+		run.Count("dfs_runs_with_preemption", int64(st.Preempted))
+		run.Max("dfs_max_depth", int64(st.MaxDepth))
+		run.Observe("dfs|"+p.kind+fmt.Sprintf("|preempt<=%d", p.preempt), st)
+	}
+	r := run.Rand("hybrid-random-schedules")
+	kinds := []string{"hy-2act-cross-node", "hy-2act+revoke", "hy-3act", "hy-1act+revoke"}
+	n := run.Pick(150, 6000)
+	for i := 0; i < n; i++ {
+		sc := c06Scenarios[kinds[r.Intn(len(kinds))]]
+		seed := r.Int63()
+		run.Case("random|"+sc.Kind, seed)
+		s := vk.NewSched(vk.RandomChooser{R: newC06Rand(seed)})
+		after := c06RunScheduled(t, run, sc, s, 0, "random")
+		ok := s.Run(600)
+		s.Stop()
+		after(ok)
+		run.Count("random_runs", 1)
+	}
+
+	// (b) sequential orders alternating between nodes
+	const ttl = 60 * time.Millisecond
+	for _, extra := range [][]string{{}, {"revoke"}, {"expire"}, {"revoke", "expire"}} {
+		for _, ord := range c06Perms(append([]string{"actA", "actB"}, extra...)) {
+			expiry := ""
+			if len(extra) > 0 && extra[len(extra)-1] == "expire" {
+				expiry = "ttl"
+			}
+			c06RunOrderB(t, run, "hybrid", ord, true, expiry, ttl)
+			run.Count("orders_base", 1)
+		}
+	}
+	for _, rv := range []string{"revoke0", "revoke1"} {
+		for _, ord := range c06Perms([]string{"probe0", "probe1", rv, "actA", "actB"}) {
+			c06RunOrderB(t, run, "hybrid", ord, true, "", ttl)
+			run.Count("orders_with_rejected_attempts", 1)
+		}
+	}
+	run.Floor("schedules_overlapping_windows", 50)
+	run.Floor("outcome_exactly_one_activation", 20)
+	run.Floor("orders_rejected_probe_attempts", 100)
+	run.Floor("orders_activation_after_revoke_tried", 50)
+	run.Floor("orders_first_valid_activation_succeeded", 30)
 	if run.Counter("watchdog") > 0 {
 		run.Floor("watchdog_free", 1)
 	}
